@@ -686,7 +686,7 @@ class BasicLexer(AbstractBasicLexer):
                 if not allowed:
                     allowed = {"<END-OF-FILE>"}
                 raise UnexpectedCharacters(lex_state.text.text, line_ctr.char_pos, line_ctr.line, line_ctr.column,
-                                           allowed=allowed, token_history=lex_state.last_token and [lex_state.last_token],
+                                           allowed=allowed, token_history=[lex_state.last_token] if lex_state.last_token is not None else None,
                                            state=parser_state, terminals_by_name=self.terminals_by_name)
 
             value, type_ = res
